@@ -79,6 +79,10 @@ func (s DevStmt) text(ind string) string {
 	}
 	sb.WriteString(" {\n")
 	for _, x := range subs {
+		if strings.HasSuffix(x, "}") {
+			sb.WriteString(ind + "  " + x + "\n") // a type with a body
+			continue
+		}
 		sb.WriteString(ind + "  " + x + ";\n")
 	}
 	sb.WriteString(ind + "}\n")
@@ -121,6 +125,10 @@ type C08Case struct {
 	// WithBaseTexts, when set, are the texts of the base files in the run WITH the deviations (same
 	// names as BaseNames): deviations written inside a submodule of the base itself.
 	WithBaseTexts []string `json:"with_base_texts,omitempty"`
+	// StrippedDevTexts, when set (same length as DevTexts), are the deviating modules without their
+	// deviation statements: the deviating modules define schema nodes of their own, so the run WITHOUT
+	// the deviations loads them too, and their own trees take part in the frame comparison.
+	StrippedDevTexts []string `json:"stripped_dev_texts,omitempty"`
 	// Malformed: a deviate substatement has a value its keyword does not admit (config "", min-elements "");
 	// the conversion of the deviating module must report it.
 	Malformed bool `json:"malformed,omitempty"`
@@ -158,6 +166,12 @@ func (d Deviation) Node() *Node {
 
 // devModuleText renders a deviating module that imports the given (module, prefix) pairs.
 func devModuleText(name string, imports [][2]string, devs []Deviation) string {
+	return devModuleTextX(name, imports, devs, "", false)
+}
+
+// devModuleTextX: own = schema nodes the deviating module defines itself (rendered text); strip = leave
+// the deviation statements out (the module as it is "without its deviations").
+func devModuleTextX(name string, imports [][2]string, devs []Deviation, own string, strip bool) string {
 	var sb strings.Builder
 	fmt.Fprintf(&sb, "module %s {\n  namespace \"urn:%s\";\n  prefix %s;\n", name, name, name)
 	for _, im := range imports {
@@ -176,8 +190,9 @@ func devModuleText(name string, imports [][2]string, devs []Deviation) string {
 			}
 		}
 	}
+	sb.WriteString(own)
 	for _, d := range devs {
-		if d.Module != name {
+		if d.Module != name || strip {
 			continue
 		}
 		fmt.Fprintf(&sb, "  deviation %s {\n", quote(d.Arg))
@@ -193,6 +208,9 @@ func devModuleText(name string, imports [][2]string, devs []Deviation) string {
 // C08KnownType: the replacement types the generator uses that resolve: built-ins, the typedefs every
 // deviating module defines (dtu, dtc, dtn), and prefixed references to typedefs of imported modules.
 func C08KnownType(t string) bool {
+	if strings.Contains(t, "{") {
+		return false // inline restriction: no reference leaf (used for unresolvable restrictions only)
+	}
 	if t == "dtu" || t == "dtc" || t == "dtn" || strings.Contains(t, ":") {
 		return true
 	}
@@ -453,6 +471,20 @@ func C08Exhaustive() []C08Case {
 			out = append(out, c)
 		}
 	}
+	// a replacement type that resolves to a built-in but whose restriction is wrong is unresolvable too
+	for _, k := range []string{"add", "replace"} {
+		for _, t := range []string{"leaf", "leaf-list"} {
+			for i, ty := range []string{`int8 { range "5..1"; }`, `string { length "a..b"; }`, `int8 { range "1000"; }`, `uint8 { range "-1..2"; }`} {
+				text, arg, target := c08Base(t, nil)
+				s := NewDevStmt(k)
+				s.Set("type", ty)
+				combo := fmt.Sprintf("bad-type-restriction/%s/%s/%d", k, t, i)
+				c := c08One(combo, combo, text, []Deviation{{Module: "dv", Arg: arg, Target: target, Stmts: []DevStmt{s}}}, []string{"dv"}, false)
+				c.BadType = true
+				out = append(out, c)
+			}
+		}
+	}
 	// boundary values of the element bounds
 	for _, t := range []string{"leaf-list", "list", "leaf"} {
 		for _, k := range []string{"add", "replace", "delete"} {
@@ -525,6 +557,90 @@ func C08Exhaustive() []C08Case {
 	out = append(out, c08EmptyStringCases()...)
 	out = append(out, c08SubmoduleCases()...)
 	out = append(out, c08TypeOnlyCases()...)
+	out = append(out, c08ShadowCases()...)
+	return out
+}
+
+// c08ShadowCases: the deviating module defines nodes of its own with the same names as the nodes of
+// the base (a shadow of the targeted subtree).  A deviation path whose first prefix is not known in
+// the deviating module (the base module's own prefix where the import uses another, a typo, a prefix
+// only another module imports) names nothing: it must be reported, and must not be walked in the
+// deviating module's own tree.  With the right prefix the base is deviated and the shadow stays as it
+// is; with the module's own prefix or no prefix the module deviates its own node and the base stays.
+func c08ShadowCases() []C08Case {
+	var out []C08Case
+	st := func(kind string, pv ...string) DevStmt {
+		s := NewDevStmt(kind)
+		for i := 0; i+1 < len(pv); i += 2 {
+			s.Set(pv[i], pv[i+1])
+		}
+		return s
+	}
+	bText := "module b {\n  namespace \"urn:b\";\n  prefix sys;\n  leaf s0 { type string; default keep; }\n" +
+		"  leaf t { type string; default d1; }\n  container c { leaf x { type string; default d1; } leaf y { type string; } }\n}\n"
+	cText := "module c {\n  namespace \"urn:c\";\n  prefix c;\n  leaf t { type string; default d1; }\n" +
+		"  container c { leaf x { type string; default d1; } }\n}\n"
+	shadow := "  leaf t { type string; default d1; }\n  container c { leaf x { type string; default d1; } leaf y { type string; } }\n"
+	type pa struct {
+		name, arg, target, mod string // target == "": names nothing
+		needShadow            bool
+	}
+	paths := []pa{
+		{"base-own-prefix/top", "/sys:t", "", "", false},
+		{"base-own-prefix/nested", "/sys:c/sys:x", "", "", false},
+		{"base-own-prefix/nested-mixed", "/sys:c/s:x", "", "", false},
+		{"typo-prefix/top", "/zz:t", "", "", false},
+		{"typo-prefix/nested", "/zz:c/zz:x", "", "", false},
+		{"other-modules-prefix/top", "/c:t", "", "", false},
+		{"other-modules-prefix/nested", "/c:c/c:x", "", "", false},
+		{"import-prefix/top", "/s:t", "/b/t", "b", false},
+		{"import-prefix/nested", "/s:c/s:x", "/b/c/x", "b", false},
+		{"own-prefix/top", "/dva:t", "/dva/t", "dva", true},
+		{"own-prefix/nested", "/dva:c/dva:x", "/dva/c/x", "dva", true},
+		{"no-prefix/top", "/t", "/dva/t", "dva", true},
+		{"no-prefix/nested", "/c/x", "/dva/c/x", "dva", true},
+	}
+	stmts := []struct {
+		name string
+		s    []DevStmt
+	}{
+		{"replace-default", []DevStmt{st("replace", "default", "x")}},
+		{"delete-default", []DevStmt{st("delete", "default", "d1")}},
+		{"add-units", []DevStmt{st("add", "units", "u1")}},
+		{"not-supported", []DevStmt{NewDevStmt("not-supported")}},
+		{"replace-then-not-supported", []DevStmt{st("replace", "default", "x"), NewDevStmt("not-supported")}},
+	}
+	for _, p := range paths {
+		for _, x := range stmts {
+			for _, sh := range []bool{true, false} {
+				if p.needShadow && !sh {
+					continue
+				}
+				for _, ins := range []bool{false, true} {
+					if ins && !strings.Contains(x.name, "not-supported") {
+						continue
+					}
+					own := ""
+					if sh {
+						own = shadow
+					}
+					d := Deviation{Module: "dva", Arg: p.arg, Target: p.target, TargetMod: p.mod, Stmts: x.s, Missing: p.target == ""}
+					// a valid deviation of the base next to it, so that the case is not only about the error
+					devs := []Deviation{d}
+					combo := fmt.Sprintf("shadow/%s/%s/shadow=%v/ignore=%v", p.name, x.name, sh, ins)
+					c := C08Case{Label: combo, Combo: combo, BaseNames: []string{"b.yang", "c.yang"}, BaseTexts: []string{bText, cText},
+						Devs: devs, DevMods: []string{"dvb", "dva"}, IgnoreNS: ins}
+					c.DevNames = []string{"dvb.yang", "dva.yang"}
+					// dvb imports c under the prefix dva does not know; it defines the shadow too
+					c.DevTexts = []string{devModuleTextX("dvb", [][2]string{{"c", "c"}}, devs, own, false),
+						devModuleTextX("dva", [][2]string{{"b", "s"}}, devs, own, false)}
+					c.StrippedDevTexts = []string{devModuleTextX("dvb", [][2]string{{"c", "c"}}, devs, own, true),
+						devModuleTextX("dva", [][2]string{{"b", "s"}}, devs, own, true)}
+					out = append(out, c)
+				}
+			}
+		}
+	}
 	return out
 }
 
@@ -966,9 +1082,59 @@ func C08Random(r *rand.Rand) C08Case {
 			c.Devs = append(c.Devs, d)
 		}
 	}
+	// now and then the deviating modules define top-level nodes with the names of their top-level
+	// targets (a shadow), and some of those deviations are written with a first prefix the deviating
+	// module does not know (the base module's own prefix, a typo: names nothing, must be reported and must
+	// not be walked in the module's own tree) or with the module's own prefix / none (deviates the shadow)
+	own := map[string]string{}
+	if g.chance(0.15) {
+		byDump := map[string]tgt{}
+		for _, t := range tgts {
+			byDump[t.mod+" "+t.dump] = t
+		}
+		defined := map[string]bool{}
+		for i := range c.Devs {
+			d := &c.Devs[i]
+			t, ok := byDump[d.TargetMod+" "+d.Target]
+			if d.Missing || !ok || len(t.sp.Names) != 1 || t.sp.ChoiceShorthand[0] {
+				continue
+			}
+			name := t.sp.Names[0]
+			var text string
+			switch t.kw {
+			case "leaf":
+				text = "  leaf " + name + " { type string; default d1; }\n"
+			case "leaf-list":
+				text = "  leaf-list " + name + " { type string; default a; default b; min-elements 1; }\n"
+			case "container":
+				text = "  container " + name + " { leaf q { type string; } }\n"
+			case "list":
+				text = "  list " + name + " { key k; leaf k { type string; } max-elements 3; }\n"
+			default:
+				continue
+			}
+			if !defined[d.Module+" "+name] {
+				defined[d.Module+" "+name] = true
+				own[d.Module] += text
+			}
+			switch k := r.Intn(8); {
+			case k <= 2:
+				d.Arg, d.Missing, d.Target, d.TargetMod = "/"+g.pick([]string{t.m.Prefix, t.m.Prefix, "zz"})+":"+name, true, "", ""
+			case k == 3:
+				d.Arg, d.Target, d.TargetMod = "/"+d.Module+":"+name, "/"+d.Module+"/"+name, d.Module
+			case k == 4:
+				d.Arg, d.Target, d.TargetMod = "/"+name, "/"+d.Module+"/"+name, d.Module
+			}
+		}
+	}
 	for _, m := range mods {
 		c.DevNames = append(c.DevNames, m+".yang")
-		c.DevTexts = append(c.DevTexts, devModuleText(m, imports, c.Devs))
+		c.DevTexts = append(c.DevTexts, devModuleTextX(m, imports, c.Devs, own[m], false))
+	}
+	if len(own) > 0 {
+		for _, m := range mods {
+			c.StrippedDevTexts = append(c.StrippedDevTexts, devModuleTextX(m, imports, c.Devs, own[m], true))
+		}
 	}
 	// now and then deviations written in a submodule of the base, naming nodes of the module it belongs
 	// to with the belongs-to prefix or without prefix (applied after the deviations of all modules)
